@@ -32,6 +32,8 @@ func runC11(w *World, r *Report) {
 	c11Scope(w, r)
 	c11Disabled(w, r)
 	c11Alias(w, r)
+	c11NameInPath(w, r)
+	c11AliasesFirst(w, r)
 }
 
 func c11GlobalDirection(w *World, r *Report) {
@@ -170,33 +172,49 @@ func c11Scope(w *World, r *Report) {
 					why = "vals[\"Values\"] without the IsRoot() guard: a subchart would see its parent's whole values"
 				}
 			}
+		case *ssa.ChangeType:
+			return classify(x.X, at, depth+1)
 		case *ssa.Extract:
-			if c, okc := x.Tuple.(*ssa.Call); okc {
-				if f, _ := calleeOf(c.Common()); f != nil && FuncName(f) == "(pkg/chart/v2/util.Values).Table" && c.Call.Args[0] == vals {
-					// path = "Values." + c.Name()
-					pathOK := false
-					if bo, okb := c.Call.Args[1].(*ssa.BinOp); okb && bo.Op == token.ADD {
-						if pfx, isC := constString(bo.X); isC && pfx == "Values." {
-							if cc, okn := bo.Y.(*ssa.Call); okn {
-								if ff, _ := calleeOf(cc.Common()); ff != nil && FuncName(ff) == "(*pkg/chart/v2.Chart).Name" {
-									pathOK = true
+			// the section parent["Values"][<chart name>] taken by key (type-tested), where parent["Values"]
+			// is the ok result of vals.Table("Values")
+			if ta, okt := x.Tuple.(*ssa.TypeAssert); okt && x.Index == 0 {
+				inner := ta.X
+				if ex2, ok2 := inner.(*ssa.Extract); ok2 { // comma-ok lookup
+					inner = ex2.Tuple
+				}
+				if lk, okl := inner.(*ssa.Lookup); okl {
+					keyOK := false
+					if cc, okn := lk.Index.(*ssa.Call); okn {
+						if ff, _ := calleeOf(cc.Common()); ff != nil && FuncName(ff) == "(*pkg/chart/v2.Chart).Name" {
+							keyOK = true
+						}
+					}
+					tblOK := false
+					if tex, okx := lk.X.(*ssa.Extract); okx && tex.Index == 0 {
+						if c, okc := tex.Tuple.(*ssa.Call); okc {
+							if f, _ := calleeOf(c.Common()); f != nil && FuncName(f) == "(pkg/chart/v2/util.Values).Table" && c.Call.Args[0] == vals {
+								if pfx, isC := constString(c.Call.Args[1]); isC && pfx == "Values" {
+									if okE := okEdgesOfCall(c); len(okE) > 0 {
+										if ex, _ := FullGraph(fn).PathExists(posOf(c), posOf(at), Avoid{}.withEdges(okE...)); !ex {
+											tblOK = true
+										}
+									}
 								}
 							}
 						}
 					}
-					// the table is used only where Table reported no error (on error it returns the enclosing table)
-					errOK := false
-					if okE := okEdgesOfCall(c); len(okE) > 0 {
-						if ex, _ := FullGraph(fn).PathExists(posOf(c), posOf(at), Avoid{}.withEdges(okE...)); !ex {
-							errOK = true
-						}
+					ok, why = keyOK && tblOK, "the section of the parent's Values table under the chart's own name"
+					if !keyOK {
+						why = "a section of the parent's values under a key other than the chart's name"
+					} else if !tblOK {
+						why = "a section of something other than the parent's Values table (or used although Table reported an error)"
 					}
-					ok, why = pathOK && errOK, "the table Values.<chart name> of the parent's scope"
-					if !pathOK {
-						why = "a table of the parent's scope under a path other than Values.<chart name>"
-					} else if !errOK {
-						why = "the result of Values.Table used although it reported an error (then it is the parent's whole table)"
-					}
+					break
+				}
+			}
+			if c, okc := x.Tuple.(*ssa.Call); okc {
+				if f, _ := calleeOf(c.Common()); f != nil && FuncName(f) == "(pkg/chart/v2/util.Values).Table" && c.Call.Args[0] == vals {
+					ok, why = false, "a table fetched with the dotted-path accessor under a path built from the chart name (a name containing a dot is split)"
 				}
 			}
 		}
@@ -551,4 +569,143 @@ func c11Alias(w *World, r *Report) {
 		}
 	}
 	r.Check(bad == "" && retLocal && stores > 0, "C11/ALIAS", "getAliasDependency", w.Pos(fn.Pos()), "all writes go to the local copies of the chart and its metadata, and the copy is returned", "the aliasing writes into the original chart/metadata (at "+bad+") or does not return a copy")
+}
+
+// c11NameInPath: Values.Table and Values.PathValue split their argument at dots. Chart names,
+// dependency names and aliases may contain dots, so they must not be made part of such a path: the
+// section of a chart is a single key.
+func c11NameInPath(w *World, r *Report) {
+	r.Rule("C11/NAME-IN-PATH", "no chart name, dependency name or alias is concatenated into the argument of the dotted-path accessors Values.Table / Values.PathValue (a name containing a dot would be split): sections are fetched by key", 1)
+	n := 0
+	seen := map[string]int{}
+	// scope: what a subchart's templates see (the engine) and whether a dependency is enabled
+	// (conditions and tags). Import-values (child to parent) is not part of this property; the same
+	// pattern there (processImportValues: Table(dependency name + "." + path)) is noted in DESIGN.md.
+	inScope := func(fn *ssa.Function) bool {
+		p := fnPkgPath(fn)
+		if strings.HasSuffix(p, "/pkg/engine") {
+			return true
+		}
+		if strings.HasSuffix(p, "/pkg/chart/v2/util") {
+			n := FuncName(origin(fnRoot(fn)))
+			return strings.Contains(n, "processDependencyConditions") || strings.Contains(n, "processDependencyTags") || strings.Contains(n, "processDependencyEnabled") || strings.Contains(n, "ValidateAgainstSchema")
+		}
+		return false
+	}
+	for _, fn := range w.HelmFuncs() {
+		if !inScope(fn) {
+			continue
+		}
+		for _, c := range callInstrs(fn) {
+			f, _ := calleeOf(c.Common())
+			if f == nil {
+				continue
+			}
+			name := FuncName(f)
+			if name != "(pkg/chart/v2/util.Values).Table" && name != "(pkg/chart/v2/util.Values).PathValue" {
+				continue
+			}
+			if len(c.Common().Args) < 2 {
+				continue
+			}
+			arg := c.Common().Args[1]
+			if _, isC := constString(arg); isC {
+				continue
+			}
+			n++
+			culprit := ""
+			backSlice(arg, func(v ssa.Value) bool {
+				switch x := v.(type) {
+				case *ssa.Call:
+					if g, _ := calleeOf(x.Common()); g != nil {
+						if FuncName(g) == "(*pkg/chart/v2.Chart).Name" {
+							culprit = "the chart's name"
+						}
+						return true
+					}
+				case *ssa.UnOp:
+					if x.Op == token.MUL {
+						if _, t, fld := fieldNameOf(x.X); (t == "Dependency" || t == "Metadata") && (fld == "Name" || fld == "Alias") {
+							culprit = "a " + t + "." + fld
+						}
+						if _, t, fld := fieldNameOf(x.X); t == "Dependency" && fld == "Tags" {
+							culprit = "a tag name"
+						}
+					}
+				}
+				return culprit != ""
+			})
+			key := FuncName(fn) + "/" + describeCall(c.Common())
+			seen[key]++
+			if seen[key] > 1 {
+				key = fmt.Sprintf("%s#%d", key, seen[key])
+			}
+			r.Fn(FuncName(fn))
+			r.Check(culprit == "", "C11/NAME-IN-PATH", key, w.InstrPos(c), "the path is made of path-valued data only (conditions, import paths)", culprit+" is made part of a dotted path: for a name containing a dot the section is not found, so the chart does not get the values destined for it")
+		}
+	}
+	if n == 0 {
+		r.OKTrivial("C11/NAME-IN-PATH", "none", "-", "no computed path is given to a dotted-path accessor")
+	}
+}
+
+func fnRoot(fn *ssa.Function) *ssa.Function {
+	for fn.Parent() != nil {
+		fn = fn.Parent()
+	}
+	return fn
+}
+
+// c11AliasesFirst: the effective values that decide conditions and tags are computed on the chart tree
+// whose dependencies already carry their aliases (SetDependencies with the alias-resolved charts):
+// an aliased chart's own defaults must land under its alias.
+func c11AliasesFirst(w *World, r *Report) {
+	r.Rule("C11/ALIASES-FIRST", "processDependencyEnabled computes the effective values (CoalesceValues) only after the alias-resolved dependency list was installed with SetDependencies, and evaluates tags and conditions on those values", 1)
+	fn := w.Fn("pkg/chart/v2/util", "processDependencyEnabled")
+	if fn == nil {
+		r.Unk("C11/ALIASES-FIRST", "anchor", "-", "processDependencyEnabled not found")
+		return
+	}
+	r.Fn(FuncName(fn))
+	g := FullGraph(fn)
+	var sets, coal []ssa.Instruction
+	var evals []ssa.CallInstruction
+	for _, c := range callInstrs(fn) {
+		f, _ := calleeOf(c.Common())
+		if f == nil {
+			continue
+		}
+		switch FuncName(f) {
+		case "(*pkg/chart/v2.Chart).SetDependencies":
+			sets = append(sets, c)
+		case "pkg/chart/v2/util.CoalesceValues":
+			coal = append(coal, c)
+		case "pkg/chart/v2/util.processDependencyTags", "pkg/chart/v2/util.processDependencyConditions":
+			evals = append(evals, c)
+		}
+	}
+	if len(sets) == 0 || len(coal) == 0 {
+		r.Bad("C11/ALIASES-FIRST", "order", w.Pos(fn.Pos()), "processDependencyEnabled no longer installs the alias-resolved dependencies or no longer computes effective values")
+		return
+	}
+	bad := ""
+	for _, c := range coal {
+		if ex, _ := g.PathExists(entryPos(fn), posOf(c), avoidInstrs(sets[:1]...)); ex {
+			bad = "the effective values can be computed before the aliases are applied (" + w.InstrPos(c) + "): an aliased chart's defaults are not found under its alias"
+		}
+	}
+	for _, e := range evals {
+		usesCoalesced := false
+		for _, a := range e.Common().Args {
+			for _, c := range coal {
+				if cv, ok := c.(ssa.Value); ok && derivesFromValue(a, cv) {
+					usesCoalesced = true
+				}
+			}
+		}
+		if !usesCoalesced {
+			bad = "tags/conditions are not evaluated on the effective values (" + w.InstrPos(e) + ")"
+		}
+	}
+	r.Check(bad == "", "C11/ALIASES-FIRST", "order", w.InstrPos(coal[0]), "effective values are computed after the aliases were applied and drive tags and conditions", bad)
 }
